@@ -18,6 +18,10 @@ CHECKS = {
             "Decides the per-method transition relation of the cursor for all integers (slot, size, argument), in-bounds element access, preservation of the invariant, immutability of the snapshot fields, freshness of the array handed to every iterator, and that no iterator is reachable from shared state. Content of the snapshot is not decided.",
             "go/types, go/ssa of x/tools v0.29.0; spec tables in checker/c17.go",
             "DESIGN.md 5/C17"),
+    "C19": ("static analysis: lock-region must-analysis on go/cfg for the class registries, post-construction write sets and type-graph reachability from shared roots (package-level variables, class-struct fields, bound receivers and captures of stored function values) (EFFECT)",
+            "Decides race-freedom preconditions for distinct instances: registries accessed only under one mutex in a single get-or-create region, no unsynchronised mutable object reachable from state shared by all instances of a type, package-level variables write-once. Equivalence of concurrent and sequential results is not decided.",
+            "go/types, go/cfg of x/tools v0.29.0; Go memory model; allow-list: sync.*, *regexp.Regexp",
+            "DESIGN.md 5/C19"),
 }
 
 NOT_YET = "no structural clause is checked yet in this round; the behavioural property itself quantifies over histories/schedules/inputs that static analysis in reach cannot bound"
